@@ -673,6 +673,18 @@ pub fn build(op: &Op, hs: &mut Handles) -> Ent {
                 q.add_resource(rqsc::ResourceStructure::new(if t[0] == 0 { rqsc::ResourceType::Cache } else { rqsc::ResourceType::Memory }, t[1] as u16, id));
                 if op.s.len() % 3 == 2 && op.s.len() <= 64 { peek(&q); }
             }
+            // the controller handed to the table may be a copy made through the `Clone` trait: `clone()`, or
+            // `clone_from` into an existing controller of another size (both are public API of a non-`Copy` type)
+            let q = match n(8) % 3 {
+                1 => q.clone(),
+                2 => {
+                    let mut d = rqsc::QoSController::new(rqsc::ControllerType::Capacity, gas_of(&[0, 8, 0, 1, 4096]), 1, 2, 3);
+                    d.add_resource(rqsc::ResourceStructure::new(rqsc::ResourceType::Cache, 0, rqsc::ResourceID::Cache(rqsc::CacheResource::new(7))));
+                    d.clone_from(&q);
+                    d
+                }
+                _ => q,
+            };
             Ent::QosCtrl(q)
         }
         "gas" => Ent::Gas(gas_of(&op.n)),
